@@ -43,6 +43,11 @@ def run(ctx):
             progs.append(amlgen.prog(g, {"t": "AddrSpace", "w": w, "kind": "io", "min": vlib.le(lo, w), "max": vlib.le(hi, w)}))
     for _ in range(6000 if th else 700):
         progs.append(amlgen.prog(g, g.descriptor()))
+    import schema
+    for _ in range(1500 if th else 250):      # coinciding fields: min == max == translation, base == length
+        d = schema.equalize(g.descriptor(), rng)
+        progs.append(amlgen.prog(g, d))
+        progs.append(amlgen.prog(g, {"t": "ResourceTemplate", "ch": [d, schema.equalize(g.descriptor(), rng)]}))
     # templates of 0..3 descriptors over all kinds and orders
     for n in range(0, 4):
         for combo in itertools.product(KINDS, repeat=n):
